@@ -6,7 +6,7 @@ W=/tmp/mwt-$label
 git -C /repo worktree remove --force $W 2>/dev/null
 git -C /repo worktree add -q $W HEAD || exit 9
 cd $W
-demo=$(ls $d/demo*_test.go 2>/dev/null | head -1)
+demo=$(ls $d/demo*_test.go $d/demo_test.go.txt 2>/dev/null | head -1)
 pkgdir=.
 if [ -n "$demo" ] && grep -q '^package context' $demo; then pkgdir=./context; fi
 # demo on clean HEAD
@@ -20,7 +20,7 @@ withp=$(timeout 600 go test -vet=off -count=1 -run 'TestDemo' $pkgdir 2>&1 | tai
 rm $pkgdir/zz_demo_test.go
 echo "[$label] demo@HEAD: $clean | suite+patch: $suite | demo+patch: $withp"
 for p in "$@"; do
-  out=$(/verif/bin/vcheck -repo $W -p $p -tier ${TIER:-quick} -no-evidence 2>&1)
+  out=$(/verif/bin/vcheck -repo $W -p $p -tier ${TIER:-quick} -maxviol 1 -shrink 10s -no-evidence 2>&1)
   code=$?
   echo "[$label] $p exit=$code viol=$(echo "$out" | grep -c '^VIOLATION') :: $(echo "$out" | grep -m1 -A2 '^VIOLATION' | sed -n 3p | cut -c1-260)"
 done
